@@ -1,9 +1,9 @@
 #!/bin/bash
-# usage: revert_eval.sh <commit> <check>...   - undo one repair in /repo's working tree (not committed), run the checks, restore the tree
+# usage: revert_eval.sh <commit>[,<commit>...] <check>...  (several commits: newest first)   - undo one repair in /repo's working tree (not committed), run the checks, restore the tree
 c=$1; shift
 cd /repo || exit 2
 git diff --quiet || { echo "/repo not clean"; exit 2; }
-if ! git revert -n "$c" >/dev/null 2>&1; then echo "revert of $c conflicts"; git revert --abort 2>/dev/null; git reset -q --hard HEAD; exit 3; fi
+for one in ${c//,/ }; do if ! git revert -n "$one" >/dev/null 2>&1; then echo "revert of $one conflicts"; git revert --abort 2>/dev/null; git reset -q --hard HEAD; exit 3; fi; done
 for p in "$@"; do
   out=$(cd /verif && ./check $p 2>&1 | grep -v conda)
   echo "$c $p: exit=$? violations=$(echo "$out" | grep -c '^VIOLATION') $(echo "$out" | grep -m3 'class=' | tr '\n' ';' | cut -c1-300)"
